@@ -378,14 +378,23 @@ pub fn check_program(db: &Db, prog: &Program, insts: &[Inst]) -> Outcome {
         // with the repeats left out — otherwise a second defect hides behind the first.
         let mut merged_projection: Option<Vec<usize>> = None;
         if arity_differs {
-            let mut keep: Vec<usize> = vec![];
-            for (k, c) in final_frame.cols.iter().enumerate() {
-                let repeat = c.name.is_some() && keep.iter().any(|&j| final_frame.cols[j].name == c.name && final_frame.cols[j].input == c.input);
-                if !repeat {
-                    keep.push(k);
+            // positions of the final `select` that list a column already listed by an earlier item
+            let mut first_of: Vec<Option<usize>> = vec![None; final_frame.cols.len()];
+            if let Some(Step::Select(items)) = prog.main.as_ref().and_then(|m| m.steps.last()) {
+                if items.len() == final_frame.cols.len() {
+                    for (k, it) in items.iter().enumerate() {
+                        if let (E::Col(c), None) = (&it.e, &it.alias) {
+                            first_of[k] = items[..k].iter().position(|j| j.alias.is_none() && matches!(&j.e, E::Col(c2) if c2 == c));
+                        }
+                    }
                 }
             }
-            let same_names = keep.len() == names.len() && keep.iter().zip(&names).all(|(&k, n)| final_frame.cols[k].name.as_deref().map(|e| e == n).unwrap_or(true));
+            let keep: Vec<usize> = (0..final_frame.cols.len()).filter(|&k| first_of[k].is_none()).collect();
+            // the surviving column carries the name of the column (the model names the last listing)
+            let name_of = |k: usize| -> Option<String> {
+                final_frame.cols[k].name.clone().or_else(|| (0..final_frame.cols.len()).find(|&r| first_of[r] == Some(k)).and_then(|r| final_frame.cols[r].name.clone()))
+            };
+            let same_names = keep.len() == names.len() && keep.iter().zip(&names).all(|(&k, n)| name_of(k).map(|e| &e == n).unwrap_or(true));
             if keep.len() < final_frame.cols.len() && same_names {
                 merged_projection = Some(keep);
             } else {
